@@ -230,7 +230,7 @@ func (h *bufHooks) LenIsZero(c *engine.Ctx, so engine.SliceOf) (bool, bool) {
 
 func (h *bufHooks) OnCall(c *engine.Ctx, instr ssa.Instruction, callee *ssa.Function, args []engine.AbsVal) (bool, engine.AbsVal) {
 	name := callee.String()
-	if name == pkgEscape+".InternalEscapeBytes" {
+	if name == escapeFnName {
 		so, ok := args[0].(engine.SliceOf)
 		if ok {
 			prefix := bufPrefixOfSlice(so.Path)
@@ -280,7 +280,7 @@ func pkgPathOf(fn *ssa.Function) string {
 
 func fieldName(fa *ssa.FieldAddr) string {
 	st := fa.X.Type().Underlying().(*types.Pointer).Elem().Underlying().(*types.Struct)
-	return st.Field(fa.Field).Name()
+	return engine.FieldName(st.Field(fa.Field))
 }
 
 func (h *bufHooks) OnStore(c *engine.Ctx, instr ssa.Instruction, addr engine.Ptr, val engine.AbsVal) engine.AbsVal {
@@ -338,7 +338,7 @@ func (h *bufHooks) onStore(c *engine.Ctx, instr ssa.Instruction, addr engine.Ptr
 		default:
 			// new backing array: from the escape routine or from grow
 			if call, isCall := st.Val.(*ssa.Call); isCall {
-				if f := call.Common().StaticCallee(); f != nil && f.String() == pkgEscape+".InternalEscapeBytes" {
+				if f := call.Common().StaticCallee(); f != nil && f.String() == escapeFnName {
 					h.set(c, addr.Obj, prefix, "#pending", "none")
 					return
 				}
